@@ -125,7 +125,7 @@ impl Property for C07 {
             Phase::Enumerate { name: "assets", total: 6, exhaustive: false, gen: Arc::new(|i| Some(C07Case::Asset(i as u8))) },
             Phase::Random {
                 name: "built",
-                cases: tier.pick(1_500, 100_000),
+                cases: tier.pick(4_000, 100_000),
                 strat: Arc::new(|| {
                     config_any(CfgParams { max_files: 8, sizes: size_mixed(), comp: comp_fast(), sign_prob: 0.0, file_kinds: true, force_large_prob: 0.25, rich_meta: false })
                         .prop_map(C07Case::Built)
@@ -162,7 +162,7 @@ impl Property for C07 {
             },
             Phase::Random {
                 name: "foreign",
-                cases: tier.pick(6_000, 600_000),
+                cases: tier.pick(20_000, 600_000),
                 strat: Arc::new(|| {
                     (filepkg::model_files(6, 40), proptest::collection::vec(any::<u16>(), 6), any::<bool>(), prop::bool::weighted(0.7), prop::bool::weighted(0.5))
                         .prop_map(|(files, order, stripped, omit_ghost, reorder)| C07Case::Foreign { files, order: if reorder { order } else { vec![] }, stripped, omit_ghost })
